@@ -466,7 +466,14 @@ func (c *conn) WriteTo(w io.Writer) (n int64, err error) {
 }
 
 func (c *conn) Flush() error {
-	return c.loop.write(c)
+	if err := c.loop.write(c); err != nil {
+		return err
+	}
+	// In LT mode, whatever the kernel did not take right now will only be sent upon a writable event.
+	if c.opened && !c.outboundBuffer.IsEmpty() && !c.loop.engine.opts.EdgeTriggeredIO {
+		return c.loop.poller.ModReadWrite(&c.pollAttachment, false)
+	}
+	return nil
 }
 
 func (c *conn) InboundBuffered() int {
